@@ -44,6 +44,8 @@ LoadH2 == {Asc(1, 6), Desc(6, 1), <<2, 4, 6, 1, 3, 5>>}         \* height 2 with
 LoadNine == {Asc(1, 9), Desc(9, 1)}                             \* root of 2 keys over 3 leaves (t = 3)
 LoadEven == {Stride(2, 6, 2)}                                   \* 2,4,..,12: odd keys are the gaps
 LoadH2one == {Asc(1, 6)}
+LoadRootMerge == {Asc(1, 6), Asc(2, 7), Desc(7, 2)}                 \* one delete away from a root over two minimal leaves (t = 3)
+LoadRootMerge4 == {Asc(1, 8), Desc(9, 2)}                        \* the same with t = 4
 LoadTall == {Asc(1, 20), Desc(20, 1), Scatter(26, 53, 20)}      \* height 3 with t = 3 (in_order off)
 LoadTall4 == {Asc(1, 34), Desc(34, 1)}                          \* height 3 with t = 4 (in_order off)
 LoadSim(n) == {<<>>, Asc(1, n), Desc(n, 1), Scatter(n, 53, 20), Scatter((n * 3) \div 4, 53, 11),
